@@ -87,6 +87,57 @@ pub struct Spec {
 
 pub type M<V> = (usize, usize, V);
 
+pub const INLINE_CAP: usize = 48;
+
+/// How a haystack is handed to the `AsRef`-generic entry points.
+#[derive(Clone, Copy, Debug, PartialEq, Eq)]
+pub enum Container {
+    /// user-defined type with inline storage, passed by value
+    Inline,
+    /// `[u8; 16]` passed by value (byte-wise; the char-wise twin uses the inline string type)
+    Array16,
+    /// `Vec<u8>` / `String` passed by value
+    Heap,
+}
+
+/// A byte string stored inline (no heap), like `[u8; N]` or `arrayvec::ArrayVec<u8, N>`.
+#[derive(Clone, Copy)]
+pub struct InlineBytes {
+    buf: [u8; INLINE_CAP],
+    len: usize,
+}
+impl InlineBytes {
+    pub fn new(b: &[u8]) -> Self {
+        let mut buf = [0xA5u8; INLINE_CAP];
+        buf[..b.len()].copy_from_slice(b);
+        InlineBytes { buf, len: b.len() }
+    }
+}
+impl AsRef<[u8]> for InlineBytes {
+    fn as_ref(&self) -> &[u8] {
+        &self.buf[..self.len]
+    }
+}
+
+/// A string stored inline, like `arrayvec::ArrayString` / `heapless::String`.
+#[derive(Clone, Copy)]
+pub struct InlineStr {
+    buf: [u8; INLINE_CAP],
+    len: usize,
+}
+impl InlineStr {
+    pub fn new(s: &str) -> Self {
+        let mut buf = [b'~'; INLINE_CAP];
+        buf[..s.len()].copy_from_slice(s.as_bytes());
+        InlineStr { buf, len: s.len() }
+    }
+}
+impl AsRef<str> for InlineStr {
+    fn as_ref(&self) -> &str {
+        std::str::from_utf8(&self.buf[..self.len]).expect("harness: inline str")
+    }
+}
+
 #[derive(Clone)]
 pub enum Pma<V> {
     B(DoubleArrayAhoCorasick<V>),
@@ -123,7 +174,8 @@ where
         Variant::Bytewise => {
             // both orders of the two builder setters are exercised (deterministically per case)
             let kind_first = (patterns.len() + spec.nfb.unwrap_or(0) as usize) % 2 == 0;
-            let mut b = DoubleArrayAhoCorasickBuilder::new();
+            // a third of the builders are obtained through Default::default() instead of new()
+            let mut b = if patterns.len() % 3 == 1 { DoubleArrayAhoCorasickBuilder::default() } else { DoubleArrayAhoCorasickBuilder::new() };
             if kind_first {
                 b = b.match_kind(spec.kind);
             }
@@ -142,7 +194,7 @@ where
         }
         Variant::Charwise => {
             let kind_first = (patterns.len() + spec.nfb.unwrap_or(0) as usize) % 2 == 0;
-            let mut b = CharwiseDoubleArrayAhoCorasickBuilder::new();
+            let mut b = if patterns.len() % 3 == 1 { CharwiseDoubleArrayAhoCorasickBuilder::default() } else { CharwiseDoubleArrayAhoCorasickBuilder::new() };
             if kind_first {
                 b = b.match_kind(spec.kind);
             }
@@ -220,6 +272,69 @@ impl<V: Copy> Pma<V> {
         };
         verif::set_step_budget(None);
         (r, verif::steps())
+    }
+
+    /// The slice/str entry points are generic over `AsRef<[u8]>` / `AsRef<str>`; this runs one of
+    /// them with the haystack handed over *by value* in a container that stores its bytes inline
+    /// (like `[u8; N]`, `arrayvec::ArrayString`, `smol_str`), or on the heap (`Vec`, `String`,
+    /// `Box`). The bytes must not exceed `INLINE_CAP`.
+    pub fn search_in_container(&self, m: Method, hay: &[u8], c: Container, limit: usize, budget: Option<u64>) -> Vec<M<V>> {
+        verif::reset_steps();
+        verif::set_step_budget(budget);
+        let r = match self {
+            Pma::B(p) => match c {
+                Container::Inline => {
+                    let h = InlineBytes::new(hay);
+                    match m {
+                        Method::Overlap => collect(p.find_overlapping_iter(h), limit),
+                        Method::Find => collect(p.find_iter(h), limit),
+                        Method::NoSuffix => collect(p.find_overlapping_no_suffix_iter(h), limit),
+                        _ => collect(p.leftmost_find_iter(h), limit),
+                    }
+                }
+                Container::Array16 => {
+                    let mut a = [0u8; 16];
+                    a.copy_from_slice(&hay[..16]);
+                    match m {
+                        Method::Overlap => collect(p.find_overlapping_iter(a), limit),
+                        Method::Find => collect(p.find_iter(a), limit),
+                        Method::NoSuffix => collect(p.find_overlapping_no_suffix_iter(a), limit),
+                        _ => collect(p.leftmost_find_iter(a), limit),
+                    }
+                }
+                Container::Heap => {
+                    let h: Vec<u8> = hay.to_vec();
+                    match m {
+                        Method::Overlap => collect(p.find_overlapping_iter(h), limit),
+                        Method::Find => collect(p.find_iter(h), limit),
+                        Method::NoSuffix => collect(p.find_overlapping_no_suffix_iter(h), limit),
+                        _ => collect(p.leftmost_find_iter(h), limit),
+                    }
+                }
+            },
+            Pma::C(p) => match c {
+                Container::Inline | Container::Array16 => {
+                    let h = InlineStr::new(as_str(hay));
+                    match m {
+                        Method::Overlap => collect(p.find_overlapping_iter(h), limit),
+                        Method::Find => collect(p.find_iter(h), limit),
+                        Method::NoSuffix => collect(p.find_overlapping_no_suffix_iter(h), limit),
+                        _ => collect(p.leftmost_find_iter(h), limit),
+                    }
+                }
+                Container::Heap => {
+                    let h: String = as_str(hay).to_string();
+                    match m {
+                        Method::Overlap => collect(p.find_overlapping_iter(h), limit),
+                        Method::Find => collect(p.find_iter(h), limit),
+                        Method::NoSuffix => collect(p.find_overlapping_no_suffix_iter(h), limit),
+                        _ => collect(p.leftmost_find_iter(h), limit),
+                    }
+                }
+            },
+        };
+        verif::set_step_budget(None);
+        r
     }
 
     /// `search`, with a panic of the library turned into `Err(message)`.
